@@ -401,8 +401,9 @@ def st_huge(ctx, label="huge"):
 
 # ---------------------------------------------------------------- builder scripts
 
+LONGV = "https://example.com/downloads/name-1.0.0.tar.gz"      # longer than any inline small-string representation
 VALUE_UNIVERSE = ["", "a", "A", "a/b", "...", "a/.../b", "..../x", "x/.....", "/", "//a//", "a/./b/../c", "..", ".", "x y", "a&b=c", "a%2Fb", "%", "@1", "?q#f", "é", "ǅ",
-                  "İK", "A_.-b", "1.0", "sha1:AB,md5:00", "sha1:zz", "a:0", ":", "\x00\x7f", "+", "😀"]
+                  "İK", "A_.-b", "1.0", "sha1:AB,md5:00", "sha1:zz", "a:0", ":", "\x00\x7f", "+", "😀", LONGV] + URL_ODD
 KELVIN = "\u212a"   # lower-cases to ASCII 'k' (the only non-ASCII scalar whose lower-case mapping is one ASCII letter)
 KEY_UNIVERSE = ["a_b", "aab", "AAB", "A_B", "a_", "aa", "k", "K", "key", "Key", KELVIN, KELVIN + "ey", "ke" + KELVIN, "\u0130", "checksum", "Checksum", "CHECKSUM", "repository_url", "a.b", "a-b", "a_b", "1a", "", "a b",
                 "é", "k%41", "a=b", "zz", "type", "checksums", "Checksums", "hashes", "sha256", "vers", "Vers", "version", "s", "ss", "st", "file_name", "fi", "ff"]
@@ -531,9 +532,6 @@ def st_builder_multishape(ctx, n, shapes, label="builder-multi"):
 
 
 # ---------------------------------------------------------------- qualifier scripts
-
-LONGV = "https://example.com/downloads/name-1.0.0.tar.gz"      # longer than any inline small-string representation
-
 
 def rand_quals_step(r, sep=":"):
     k = lambda: hx(r.pick(KEY_UNIVERSE))
@@ -1159,7 +1157,7 @@ def st_ascii_pairs():
 
 # ---------------------------------------------------------------- fault injection (C05)
 
-BAD_UTF8 = ["%80", "%BF", "%C3", "%c3", "%E2%82", "%e2%82", "%F0%9F%98", "%C0%AF", "%c0%af", "%E0%80%AF", "%ED%A0%80", "%ed%a0%80",
+BAD_UTF8 = ["%ED%A0%BD%ED%B8%80", "%ed%a0%80%ed%bf%bf", "%ED%AF%BF%ED%BF%BF", "%C0%80", "%FE%FF", "%FF%FE", "%E9", "%93x%94", "%EF%BF", "%F0%9F%98%80%80", "%80", "%BF", "%C3", "%c3", "%E2%82", "%e2%82", "%F0%9F%98", "%C0%AF", "%c0%af", "%E0%80%AF", "%ED%A0%80", "%ed%a0%80",
             "%F4%90%80%80", "%f4%90%80%80", "%FF", "%fe", "%C3%28", "%E2%28%A1", "%F8%88%80%80%80"]
 BAD_TYPE_CHARS = ["!", "$", "_", "~", "*", ":", ",", " ", "é", "%41", "%2B", "&", "=", "\x00", "\u212a", "(", "\\"]
 BAD_KEY_ITEMS = ["k!=v", "=v", "%6B=v", "é=v", "a b=v", "k%41=v", "a+b=v", "k:=v", "a/b=v", "=", "K K=1", "\u212a=v", "\u212aey=v", "a\u0130=v"]
